@@ -224,7 +224,46 @@ def tmpl_dup(rng):
             "state": {k: (".", k) for k in ("p", "q", "c")}}
 
 
-TEMPLATES = [("single", tmpl_single, 4), ("cmd", tmpl_cmd, 2), ("multi", tmpl_multi, 4), ("names", tmpl_names, 2), ("dup", tmpl_dup, 2)]
+T_OUTER = """imports:
+  lib: libs/lib
+targets:
+  bundle:
+    input:
+      - paths: [libs]
+    output:
+      - paths: [bundle.out]
+    build: 'true'
+"""
+T_INNER = """name: lib
+targets:
+  gen:
+    input:
+      - paths: [src]
+    output:
+      - paths: [gen.out]
+    build: 'true'
+"""
+
+
+def tmpl_nested(rng):
+    # an imported project lives INSIDE an input directory of a target of the importing project: its project file, its sources
+    # and its outputs are inputs of the outer target - its recorded state (.zinoma, two levels down) is not
+    inner_in = ["libs/lib/src/a.txt", "libs/lib/src/b.txt"]
+    outer_in = ["libs/lib/zinoma.yml", "libs/readme.txt", "libs/lib/gen.out"] + inner_in
+    model = {"paths": outer_in + ["bundle.out", "other.txt"],
+             "targets": {"gen": {"inp": inner_in, "out": ["libs/lib/gen.out"], "hasInput": True},
+                         "bundle": {"inp": outer_in, "out": ["bundle.out"], "hasInput": True}},
+             "focus": ["C18", "C15"]}
+    return {"files": {"zinoma.yml": T_OUTER, "libs/lib/zinoma.yml": T_INNER}, "model": model,
+            "members": inner_in + ["libs/readme.txt"], "others": ["other.txt"],
+            "setup": [{"op": "touch", "path": "libs/lib/zinoma.yml", "mtime": 1, "m": {"p": "libs/lib/zinoma.yml", "c": 99, "mt": 1}}],
+            "outs": {"gen": ["libs/lib/gen.out"], "bundle": ["bundle.out"]}, "targets": ["gen", "bundle"],
+            "inv": {"gen": [dict(entry=".", name="lib::gen"), dict(entry="libs/lib", name="gen")], "bundle": dict(entry=".", name="bundle")},
+            "state": {"gen": ("libs/lib", "lib::gen"), "bundle": (".", "bundle")}}
+
+
+TEMPLATES = [("single", tmpl_single, 4), ("cmd", tmpl_cmd, 2), ("multi", tmpl_multi, 4), ("names", tmpl_names, 2), ("dup", tmpl_dup, 2),
+             ("nested", tmpl_nested, 2)]
 
 
 def gen_history(rng, hid, tname, T, nops, faults=True):
@@ -529,7 +568,7 @@ NONTRIVIAL = {
     "C03": lambda h, evs: sum(1 for e in evs if e["e"] == "invoke" and e.get("decision") == "skip") >= 1,
     "C05": lambda h, evs: any(e["e"] == "corrupt" or (e["e"] == "invoke" and (e["m"]["crash"] != "none" or e["m"]["script"]["outcome"] != "ok")) for e in evs),
     "C13": lambda h, evs: h["template"] == "multi",
-    "C18": lambda h, evs: h["template"] in ("multi", "names"),
+    "C18": lambda h, evs: h["template"] in ("multi", "names", "nested"),
 }
 
 
